@@ -76,10 +76,56 @@ func (s *Sim) ClosePort(portID int) {
 	s.wakeWaiters(unsafe.Pointer(p), StBlockedNet)
 }
 
+// rawCopy copies byte by byte. The builtin copy() compiles to runtime.slicecopy in race builds, which
+// reports the access even from a norace function; datagram bytes are written by the scheduler-side world
+// and must reach the task without any detector-visible access (and without a happens-before edge).
+//
+//go:norace
+func rawCopy(src []byte) []byte {
+	dst := make([]byte, len(src))
+	for i := 0; i < len(src); i++ {
+		dst[i] = src[i]
+	}
+	return dst
+}
+
+//go:norace
+func rawAppend(dst, src []byte) []byte {
+	n := len(dst)
+	out := make([]byte, n+len(src))
+	for i := 0; i < n; i++ {
+		out[i] = dst[i]
+	}
+	for i := 0; i < len(src); i++ {
+		out[n+i] = src[i]
+	}
+	return out
+}
+
+//go:norace
+func rawString(s string) string {
+	if s == "" {
+		return ""
+	}
+	b := make([]byte, len(s))
+	for i := 0; i < len(s); i++ {
+		b[i] = s[i]
+	}
+	return string(b)
+}
+
+type taken struct {
+	data    []byte
+	srcIP   []byte
+	srcPort int
+	srcZone string
+	ifindex int
+}
+
 // netTake parks until a datagram is queued, then returns a private copy of it.
 //
 //go:norace
-func netTake(portID int) (data []byte, d Datagram, err error) {
+func netTake(portID int) (tk taken, err error) {
 	s := S
 	p := s.ports[portID]
 	if s.cur != nil && s.cur.Kind != "serve" {
@@ -87,19 +133,18 @@ func netTake(portID int) (data []byte, d Datagram, err error) {
 	}
 	for {
 		if p.closed {
-			return nil, d, net.ErrClosed
+			return tk, net.ErrClosed
 		}
 		if len(p.inbox) > 0 {
-			d = p.inbox[0]
+			d := p.inbox[0]
 			p.inbox = p.inbox[1:]
 			p.reads++
-			tmp := make([]byte, len(d.Bytes))
-			copy(tmp, d.Bytes)
+			tk = taken{data: rawCopy(d.Bytes), srcIP: rawCopy(d.SrcIP), srcPort: d.SrcPort, srcZone: rawString(d.SrcZone), ifindex: d.IfIndex}
 			if s.cur != nil {
 				s.cur.pendTag = d.ID
 			}
-			s.Tracef("recv", s.cur.ID, "datagram=%d len=%d port=%d", d.ID, len(tmp), portID)
-			return tmp, d, nil
+			s.Tracef("recv", s.cur.ID, "datagram=%d len=%d port=%d", d.ID, len(tk.data), portID)
+			return tk, nil
 		}
 		s.park(StBlockedNet, unsafe.Pointer(p))
 	}
@@ -109,13 +154,13 @@ func netTake(portID int) (data []byte, d Datagram, err error) {
 // instrumented code (not norace) on purpose: it is the write the race detector
 // must see when a handler still aliases a recycled receive buffer.
 func NetRead(portID int, b []byte) (n int, ifindex int, src *net.UDPAddr, err error) {
-	data, d, err := netTake(portID)
+	tk, err := netTake(portID)
 	if err != nil {
 		return 0, 0, nil, err
 	}
-	n = copy(b, data)
-	src = &net.UDPAddr{IP: append(net.IP(nil), d.SrcIP...), Port: d.SrcPort, Zone: d.SrcZone}
-	return n, d.IfIndex, src, nil
+	n = copy(b, tk.data)
+	src = &net.UDPAddr{IP: net.IP(tk.srcIP), Port: tk.srcPort, Zone: tk.srcZone}
+	return n, tk.ifindex, src, nil
 }
 
 // NetWrite is WriteTo on a simulated listener.
